@@ -31,8 +31,9 @@ ASSUMPTIONS = [
     "only full-width writes are data-checked (documented limitation: byte enable granularity of the DRAM data width)",
     "runs with several reads in flight and read stalls use a memory side that honours rdata.ready (the crossbar itself cannot be stalled)",
 ]
-REAL = ["litedram.frontend.ecc.LiteDRAMNativePortECC / ECCW / ECCR", "litex.soc.cores.ecc ECCEncoder/ECCDecoder"]
-STUB = ["native master", "NativeMemSlave with bit-flip injection"]
+REAL = ["litedram.frontend.ecc.LiteDRAMNativePortECC / ECCW / ECCR", "litex.soc.cores.ecc ECCEncoder/ECCDecoder",
+        "every fourth configuration: the complete LiteDRAMCore behind the ECC port (stored width = native port width, padded lanes)"]
+STUB = ["native master", "NativeMemSlave with bit-flip injection", "core variant: DramRef whose n-th returned read burst is XORed with the flip mask"]
 SHRINK = {"lists": ["events", "extra", "cmd_ready", "rready"], "zero": []}
 LEVEL_TEXT = ("Fault enumeration: for each sampled data word the flip space of the stored codeword is enumerated (all single positions of every lane; "
               "all pairs of a lane in the thorough tier) on the real ECC port, with per-event SECDED rules on returned data, sec/ded counters and sticky "
@@ -79,20 +80,52 @@ class FlipMem(NativeMemSlave):
         self.in_read = False
 
 
+class CoreFlipMem:
+    """The real core + DramRef as the memory behind the ECC port: the n-th read burst returned by the DRAM is XORed with masks[n]."""
+
+    def __init__(self, dram):
+        self.dram = dram
+        self.masks = dram.read_xor = []
+
+    def idle(self):
+        return not self.dram.wq and not self.dram.rq
+
+    def __call__(self, sim):
+        pass
+
+
 def run(scn):
     from ..agents import NativeMaster
     d = scn["dut"]
     k, bc = d["k"], d["bc"]
     cw, wto, lane_w = geometry(k, bc)
     wfrom = k * bc
-    pf = LiteDRAMNativePort("both", 16, wfrom)
-    pt = LiteDRAMNativePort("both", 16, wto)
-    dut = LiteDRAMNativePortECC(pf, pt, burst_cycles=bc, with_we_error_detection=True)
-    sim = Sim(dut, {"sys": 10000})
-    viol = Violations(sim)
     m = scn["mem"]
-    mem = FlipMem(sim, pt, cmd_ready=m.get("cmd_ready"), max_out=m.get("max_out", 8), wl1=m.get("wl1", 1), rl1=m.get("rl1", 3),
-                  extra=m.get("extra"), viol=None, honour_rready=scn.get("pipeline", 1) > 1)
+    core = scn.get("core")
+    if core:
+        # the ECC port sits on a port of the complete core (stored width = native port width, lanes padded), DRAM = DramRef
+        from ..corebench import core_host
+        box = {}
+
+        def attach(top, ports):
+            pt_ = ports[0]
+            pf_ = LiteDRAMNativePort("both", pt_.address_width, wfrom)
+            top.submodules.ecc = box["dut"] = LiteDRAMNativePortECC(pf_, pt_, burst_cycles=bc, with_we_error_detection=True)
+            box["pf"] = pf_
+        tb, sim, viol, dram = core_host(core, Violations, attach)
+        dut, pf = box["dut"], box["pf"]
+        wto = tb.ports[0].data_width
+        lane_w = wto // bc
+        assert wto == d["wto"] and cw * bc <= wto
+        mem = CoreFlipMem(dram)
+    else:
+        pf = LiteDRAMNativePort("both", 16, wfrom)
+        pt = LiteDRAMNativePort("both", 16, wto)
+        dut = LiteDRAMNativePortECC(pf, pt, burst_cycles=bc, with_we_error_detection=True)
+        sim = Sim(dut, {"sys": 10000})
+        viol = Violations(sim)
+        mem = FlipMem(sim, pt, cmd_ready=m.get("cmd_ready"), max_out=m.get("max_out", 8), wl1=m.get("wl1", 1), rl1=m.get("rl1", 3),
+                      extra=m.get("extra"), viol=None, honour_rready=scn.get("pipeline", 1) > 1)
     ix = sim.index
     I = {n_: ix(s_) for n_, s_ in (("sec", dut.sec_errors.status), ("ded", dut.ded_errors.status), ("wee", dut.we_errors.status),
                                    ("secd", dut.sec_detected), ("dedd", dut.ded_detected))}
@@ -140,6 +173,8 @@ def run(scn):
     sim.add_agent("sys", mem)
     cap = 400 + len(ops) * (30 + max(m.get("extra") or [0]) + m.get("rl1", 3) + sum(a + b for a, b in (scn.get("rready") or []))
                             + sum(a + b for a, b in (m.get("cmd_ready") or [])))
+    if core:
+        cap = 2000 + len(ops) * 120
     cyc = 0
     quiet = 0
     # NativeMaster does not wait for a write to land before the next command; keep one write outstanding at most
@@ -271,14 +306,27 @@ def run(scn):
             keys.add((ev["wid"], tuple(sorted(ev["flips"]))))
     return {"violations": viol.v, "stats": stats, "cycles": cyc, "sim_ps": sim.now, "digest": sim.digest(),
             "nontrivial": stats["events"] >= 2, "evaluations": max(1, stats["events"]), "distinct_keys": len(keys),
-            "states": ["k%d bc%d" % (k, bc)],
-            "summary": {"k": k, "lanes": bc, "codeword_bits": cw, "stored_width": wto, "events": stats["events"], "cycles": cyc}}
+            "states": ["k%d bc%d%s" % (k, bc, " core" if core else "")],
+            "summary": {"k": k, "lanes": bc, "codeword_bits": cw, "stored_width": wto, "events": stats["events"], "cycles": cyc,
+                        "variant": "core" if core else "stub"}}
 
 
 def gen(rng, tier, index):
     k = [8, 16, 32, 64][index % 4]
     bc = rng.choice([1, 2, 4, 8, 8]) if k <= 32 else rng.choice([1, 2, 4, 8])
     cw, wto, lane_w = geometry(k, bc)
+    core = None
+    if (index // 4) % 4 == 3:
+        # every fourth configuration: the ECC port on the complete core; the stored width is the core's native port width
+        from .. import coregen
+        for _ in range(40):
+            core_, info = coregen.gen_core(rng, nports=1, nranks=1, refresh=rng.random() < 0.7)
+            W = info["data_bytes"] * 8
+            fits = [b for b in (1, 2, 4, 8) if cw * b <= W and W % b == 0 and (k * b) % 8 == 0]
+            if fits:
+                core, bc = core_, rng.choice(fits)
+                wto, lane_w = W, W // bc
+                break
     events = []
     nwords = 2 if tier == "quick" else 3
     wid = 1 + 1000 * index
@@ -330,5 +378,18 @@ def gen(rng, tier, index):
     wl1 = rng.randint(1, 6)
     mem = {"cmd_ready": gen_pattern(rng, rng.choice(["none", "light"])), "max_out": 8, "wl1": wl1, "rl1": rng.randint(wl1 + 1, 10),
            "extra": [rng.choice([0, 0, 1, 3]) for _ in range(rng.randint(1, 4))]}
-    return {"dut": {"k": k, "bc": bc}, "events": events, "mem": mem,
-            "rready": gen_pattern(rng, rng.choice(["light", "heavy"])) if rng.random() < 0.5 else [], "pipeline": rng.choice([1, 2, 4])}
+    scn = {"dut": {"k": k, "bc": bc}, "events": events, "mem": mem,
+           "rready": gen_pattern(rng, rng.choice(["light", "heavy"])) if rng.random() < 0.5 else [], "pipeline": rng.choice([1, 2, 4])}
+    if core:
+        # the crossbar cannot be stalled: the master always accepts read data; fewer events (the core is ~20x slower to simulate)
+        scn["core"], scn["dut"]["wto"], scn["rready"] = core, wto, []
+        keep = [e for e in events if e.get("kind") == "write"]
+        rest = [e for e in events if e.get("kind") != "write"]
+        singles = [e for e in rest if len(e.get("flips", [])) <= 1 and not e.get("batch")]
+        others = [e for e in rest if len(e.get("flips", [])) > 1 and not e.get("batch")]
+        batch = [e for e in rest if e.get("batch")]
+        lim = 160 if tier == "quick" else 500
+        if len(singles) > lim:
+            singles = sorted(rng.sample(singles, lim), key=lambda e: (e["wid"], e["flips"]))
+        scn["events"] = keep + sorted(singles + rng.sample(others, min(len(others), lim // 2)), key=lambda e: e["wid"]) + batch
+    return scn
